@@ -502,7 +502,32 @@ pub fn get_metadata(entry: &DirEntry, follow_symlinks: bool) -> Option<Metadata>
     None
 }
 
+/// Opens a file or a directory for reading. Special files (FIFOs, sockets, devices) are refused,
+/// because opening or reading them can block forever.
+pub fn open_file<P: AsRef<Path>>(path: P) -> io::Result<File> {
+    if is_special_file(path.as_ref()) {
+        return Err(io::Error::new(
+            io::ErrorKind::InvalidInput,
+            "not a regular file or a directory",
+        ));
+    }
+
+    File::open(path)
+}
+
+/// Checks whether the path leads to something other than a regular file or a directory.
+pub fn is_special_file(path: &Path) -> bool {
+    match fs::metadata(path) {
+        Ok(metadata) => !metadata.is_file() && !metadata.is_dir(),
+        Err(_) => false,
+    }
+}
+
 pub fn get_mp3_metadata(entry: &DirEntry) -> Option<MP3Metadata> {
+    if is_special_file(&entry.path()) {
+        return None;
+    }
+
     match mp3_metadata::read_from_file(entry.path()) {
         Ok(mp3_meta) => Some(mp3_meta),
         _ => None,
@@ -510,7 +535,7 @@ pub fn get_mp3_metadata(entry: &DirEntry) -> Option<MP3Metadata> {
 }
 
 pub fn get_exif_metadata(entry: &DirEntry) -> Option<HashMap<String, String>> {
-    if let Ok(file) = File::open(entry.path()) {
+    if let Ok(file) = open_file(entry.path()) {
         if let Ok(reader) = exif::Reader::new().read_from_container(&mut BufReader::new(&file)) {
             let mut exif_info = HashMap::new();
 
@@ -596,7 +621,7 @@ fn parse_location_string(s: String, location_ref: String, modifier_value: &str) 
 }
 
 pub fn is_shebang(path: &PathBuf) -> bool {
-    if let Ok(file) = File::open(path) {
+    if let Ok(file) = open_file(path) {
         let mut buf_reader = BufReader::new(file);
         let mut buf = vec![0; 2];
         if buf_reader.read_exact(&mut buf).is_ok() {
@@ -636,7 +661,7 @@ pub fn is_hidden(file_name: &str, metadata: &Option<Metadata>, archive_mode: boo
 }
 
 pub fn get_line_count(entry: &DirEntry) -> Option<usize> {
-    if let Ok(file) = File::open(entry.path()) {
+    if let Ok(file) = open_file(entry.path()) {
         let mut reader = BufReader::with_capacity(1024 * 32, file);
         let mut count = 0;
 
@@ -664,7 +689,7 @@ pub fn get_line_count(entry: &DirEntry) -> Option<usize> {
 }
 
 pub fn get_sha1_file_hash(entry: &DirEntry) -> String {
-    if let Ok(mut file) = File::open(entry.path()) {
+    if let Ok(mut file) = open_file(entry.path()) {
         let mut hasher = sha1::Sha1::new();
         if io::copy(&mut file, &mut hasher).is_ok() {
             let hash = hasher.finalize();
@@ -676,7 +701,7 @@ pub fn get_sha1_file_hash(entry: &DirEntry) -> String {
 }
 
 pub fn get_sha256_file_hash(entry: &DirEntry) -> String {
-    if let Ok(mut file) = File::open(entry.path()) {
+    if let Ok(mut file) = open_file(entry.path()) {
         let mut hasher = sha2::Sha256::new();
         if io::copy(&mut file, &mut hasher).is_ok() {
             let hash = hasher.finalize();
@@ -688,7 +713,7 @@ pub fn get_sha256_file_hash(entry: &DirEntry) -> String {
 }
 
 pub fn get_sha512_file_hash(entry: &DirEntry) -> String {
-    if let Ok(mut file) = File::open(entry.path()) {
+    if let Ok(mut file) = open_file(entry.path()) {
         let mut hasher = sha2::Sha512::new();
         if io::copy(&mut file, &mut hasher).is_ok() {
             let hash = hasher.finalize();
@@ -700,7 +725,7 @@ pub fn get_sha512_file_hash(entry: &DirEntry) -> String {
 }
 
 pub fn get_sha3_512_file_hash(entry: &DirEntry) -> String {
-    if let Ok(mut file) = File::open(entry.path()) {
+    if let Ok(mut file) = open_file(entry.path()) {
         let mut hasher = sha3::Sha3_512::new();
         if io::copy(&mut file, &mut hasher).is_ok() {
             let hash = hasher.finalize();
